@@ -432,4 +432,7 @@ func checkC09(c *Ctx, r *Report) {
 	// ---- rule 7: and there is no other way out: every Transport.Send call is in a retried
 	// operation, where the rules above apply (shared with C04, C10, C13, C18)
 	checkSendSites(c, r)
+
+	// ---- rule 8: which session a datagram claims to belong to does not change under it
+	checkSessionIDWriters(c, r)
 }
